@@ -38,6 +38,12 @@ func runCrash(c *Ctx) {
 	for s := 0; s < scripts; s++ {
 		streamChild(c, 20*time.Minute, "C03", "crash", fmt.Sprint(c.Seed*1000+uint64(s)), c.Tier, c.Args["points"])
 	}
+	if c.Stats.Hist["setup-failed"]*4 > c.Stats.Evaluations {
+		// most scenarios could not even be set up: the run says nothing, and must not pass for a clean one
+		c.Note("%d of %d trials could not be set up", c.Stats.Hist["setup-failed"], c.Stats.Evaluations)
+		c.close()
+		os.Exit(3)
+	}
 }
 
 type crashOp struct {
@@ -271,7 +277,9 @@ func crashTrial(out *childOut, script []crashOp, N, P int, victim uint64, k int,
 	defer cl.Close()
 	dsId, err := cl.createDataset(1, 2, uint32(P), uint32(N), pb.Space_Euclidean)
 	if err != nil {
-		out.Violate("C03", "C03/setup", "dataset creation failed: "+err.Error())
+		// the scenario could not be set up (no write has been attempted): not a statement about C03
+		out.Local("setup failed, trial skipped: %v", err)
+		out.Count("setup-failed")
 		return run
 	}
 	out.Op("new 2")
@@ -543,7 +551,8 @@ func crashCorpusEmptySnapshot(out *childOut) {
 	defer cl.Close()
 	dsId, err := cl.createDataset(1, 2, 1, 3, pb.Space_Euclidean)
 	if err != nil {
-		out.Violate("C03", "C03/setup", "dataset creation failed: "+err.Error())
+		out.Local("setup failed, corpus case skipped: %v", err)
+		out.Count("setup-failed")
 		return
 	}
 	out.Op("new 2")
